@@ -30,6 +30,13 @@ theorem any_congr_mem {α} {l : List α} {p q : α → Bool} (h : ∀ x ∈ l, p
     simp only [List.any_cons]
     rw [h a (by simp), ih (fun x hx => h x (by simp [hx]))]
 
+theorem all_congr_mem {α} {l : List α} {p q : α → Bool} (h : ∀ x ∈ l, p x = q x) : l.all p = l.all q := by
+  induction l with
+  | nil => rfl
+  | cons a r ih =>
+    simp only [List.all_cons]
+    rw [h a (by simp), ih (fun x hx => h x (by simp [hx]))]
+
 /-! ### comparison -/
 
 theorem scalar_cls {v : V} (h : scalarOperand v = true) : v.cls ≠ .null ∧ v.cls ≠ .array := by
@@ -389,5 +396,287 @@ theorem matchBits_agrees {d : Doc} {path : String} (hd : PathDom d path) (o : Bi
     refine Eq.trans (congrArg (matchUnwind d path true false) (bitsCb_bool o ps')) ?_
     rw [matchUnwind_toRes]
     exact congrArg toRes (leaf_any d path _ hd.nna hd.segs fun _ => bits_ignores o ps')
+
+/-! ### $size -/
+
+theorem getCollect_nocompact (xs : List V) (k : String) (rest : Path) :
+    getCollect xs k rest true false = xs.map fun x => (Lungo.get x (k :: rest) true false).1 := by
+  induction xs with
+  | nil => rw [getCollect]; rfl
+  | cons x r ih =>
+    rw [getCollect, ih]
+    simp only [Bool.not_false, ↓reduceIte, Bool.and_false, Bool.false_eq_true, List.map_cons]
+    split <;> (try split) <;> rfl
+
+theorem arrOfLength_single (n : Int) (cs : List (V × Bool)) (h : cs.length ≤ 1) :
+    arrOfLength n (single cs) = cs.any fun c => arrOfLength n c.1 := by
+  cases cs with
+  | nil => rfl
+  | cons c r =>
+    have : r = [] := by simpa using h
+    subst this
+    simp [single]
+
+/-- below ONE fan-out, `get … compact=false` returns one item per array element: the element's
+    candidate or `missing`; so "some item is an array of length n" is "some candidate is". -/
+theorem size_get (n : Int) (p : Path) : ∀ (v : V) (f : Bool), noNestedArrays v = true → segsOK p = true →
+    fans v p = true → fans2 v p = false →
+    ∃ L, Lungo.get v p true false = (.arr L, true) ∧
+      L.any (arrOfLength n) = (candF v p f).any (fun c => arrOfLength n c.1) := by
+  induction p with
+  | nil => intro v f _ _ h; simp [fans] at h
+  | cons k rest ih =>
+    intro v f hv hp hf hf2
+    have hk : segOK k = true := by simp [segsOK] at hp; exact hp.1
+    have hrest : segsOK rest = true := by simp [segsOK] at hp ⊢; exact hp.2
+    have hne := segOK_ne hk
+    have hidx := segOK_idx hk
+    cases v with
+    | doc fs =>
+      rw [noNestedArrays] at hv
+      simp only [get_doc _ _ _ _ _ hne, candF]
+      simp only [fans, fans2] at hf hf2
+      cases hl : fs.lookup k with
+      | none => simp [hl] at hf
+      | some w =>
+        simp only [hl] at hf hf2 ⊢
+        exact ih w f (nna_lookup hv hl) hrest hf hf2
+    | arr xs =>
+      rw [noNestedArrays] at hv
+      simp only [get_arr _ _ _ _ hne hidx, candF]
+      simp only [fans, fans2] at hf hf2
+      cases he : elemAt xs k with
+      | some x =>
+        simp only [he] at hf hf2 ⊢
+        exact ih x f (nna_elem hv (elemAt_some he)).2 hrest hf hf2
+      | none =>
+        simp only [he] at hf2 ⊢
+        refine ⟨_, rfl, ?_⟩
+        rw [getCollect_nocompact]
+        clear he hf
+        induction xs with
+        | nil => rfl
+        | cons x r ihx =>
+          rw [nnaElems] at hv
+          simp only [Bool.and_eq_true, Bool.not_eq_true'] at hv
+          simp only [List.any_cons, Bool.or_eq_false_iff] at hf2
+          simp only [List.map_cons, List.any_cons, List.flatMap_cons, List.any_append, ihx hv.2 hf2.2]
+          congr 1
+          cases x with
+          | doc gs =>
+            have hgs : nnaFields gs = true := by simpa [noNestedArrays] using hv.1.2
+            simp only [get_doc _ _ _ _ _ hne]
+            cases hl : gs.lookup k with
+            | none => simp [arrOfLength]
+            | some w =>
+              have hw := nna_lookup hgs hl
+              have hfw : fans w rest = false := by simpa [hl] using hf2.1
+              obtain ⟨h1, hlen⟩ := (get_cand rest w true hw hrest).1 hfw
+              simp only [h1 false]
+              exact arrOfLength_single n _ hlen
+          | arr ys => simp [V.isArr] at hv
+          | _ => rw [get_other]; simp [arrOfLength]
+    | _ => simp [fans] at hf
+
+theorem sizeCb (n : Int) :
+    (fun item : V => match item with
+      | .arr a => (a.length : Int) == n
+      | _ => false) = arrOfLength n := by
+  funext item; cases item <;> rfl
+
+theorem matchSize_agrees {d : Doc} {path : String} (hd : PathDom d path) (v : V) (n : Int)
+    (hp : parseSize v = some (.size n))
+    (hc : fans2 (.doc d) (splitPath path) = false) :
+    matchSize d path v = toRes ((cand (.doc d) (splitPath path)).any fun c => arrOfLength n c.1) := by
+  unfold parseSize at hp
+  unfold matchSize
+  cases hi : intArg v with
+  | error e => simp [hi] at hp
+  | ok m =>
+    simp only [hi] at hp ⊢
+    by_cases hneg : m < 0
+    · simp [hneg] at hp
+    · simp only [hneg, ↓reduceIte, Option.some.injEq, Cond.size.injEq] at hp ⊢
+      subst hp
+      by_cases hf : fans (.doc d) (splitPath path) = true
+      · obtain ⟨L, hL, hany⟩ := size_get m (splitPath path) (.doc d) false hd.nna hd.segs hf hc
+        have hall : All d (splitPath path) false false = (.arr L, true) := by
+          unfold All; rw [hL]; rfl
+        rw [hall]
+        simp only [↓reduceIte]
+        show (if L.any (arrOfLength m) = true then (Except.ok () : Res Unit) else notMatched) = _
+        rw [hany]
+        rfl
+      · have hf' : fans (.doc d) (splitPath path) = false := by simpa using hf
+        obtain ⟨h1, h2⟩ := All_noFan d (splitPath path) false false hd.nna hd.segs hf'
+        rw [h1, ← arrOfLength_single m _ h2]
+        simp only [Bool.false_eq_true, ↓reduceIte]
+        cases single (cand (.doc d) (splitPath path)) <;> simp [arrOfLength, toRes, notMatched]
+
+/-! ### $all -/
+
+/-- the test lungo's `$all` callback performs on an offered value -/
+def allPred (vs : List V) (field : V) : Bool :=
+  !vs.isEmpty &&
+    ((match field with
+      | .arr a => vs.all fun value => a.any fun el => V.cmp value el == .eq
+      | _ => false) || vs.all (fun item => V.cmp field item == .eq))
+
+theorem matchAll_bool (d : Doc) (path : String) (vs : List V) :
+    matchAll d path (.arr vs) = toRes (unwindAny d path false true (allPred vs)) := by
+  rw [← matchUnwind_toRes]
+  unfold matchAll
+  congr 1
+  funext field
+  unfold boolOp allPred
+  by_cases he : vs.isEmpty = true
+  · simp [he, notMatched]
+  · simp only [he, Bool.false_eq_true, ↓reduceIte, Bool.not_false, Bool.true_and]
+    cases field with
+    | arr xs =>
+      simp only
+      by_cases hA : (vs.all fun value => xs.any fun el => V.cmp value el == .eq) = true
+      · simp [hA]
+      · simp only [hA, Bool.false_eq_true, ↓reduceIte, Bool.false_or]
+        by_cases hB : (vs.all fun item => V.cmp (V.arr xs) item == .eq) = true <;> simp [hB, notMatched]
+    | _ => simp [notMatched]
+
+theorem cmp_eq_symm (a b : V) : (V.cmp a b == .eq) = (V.cmp b a == .eq) := by
+  rw [V.cmp_swap b a]
+  cases V.cmp b a <;> rfl
+
+theorem cmp_arr_nonarr (xs : List V) (v : V) (hv : v.isArr = false) : (V.cmp (.arr xs) v == .eq) = false := by
+  cases h : V.cmp (.arr xs) v == .eq with
+  | false => rfl
+  | true =>
+    have := cmp_eq_cls' (.arr xs) v (by simpa using h)
+    cases v <;> simp_all [V.cls, V.isArr]
+
+theorem allPred_nonarr (vs : List V) (hne : vs.isEmpty = false) (l : V) (hl : l.isArr = false) :
+    allPred vs l = vs.all (fun v => V.cmp l v == .eq) := by
+  unfold allPred
+  cases l <;> simp_all [V.isArr]
+
+/-- the heart of `$all`: over offered values `A` (no arrays among them, no arrays among the
+    members) "one value equals all members, or every member is found in `A`" is "every member
+    equals some value of `A`". -/
+theorem all_core (vs A : List V) (hne : vs.isEmpty = false)
+    (hA : ∀ el ∈ A, el.isArr = false) (hvs : ∀ v ∈ vs, v.isArr = false) :
+    (A.any (allPred vs) || allPred vs (.arr A)) = vs.all (fun v => A.any (fun l => V.cmp l v == .eq)) := by
+  have h1 : A.any (allPred vs) = A.any (fun l => vs.all (fun v => V.cmp l v == .eq)) :=
+    any_congr_mem fun l hl => allPred_nonarr vs hne l (hA l hl)
+  have h2 : allPred vs (.arr A) = vs.all (fun v => A.any (fun l => V.cmp l v == .eq)) := by
+    unfold allPred
+    have h3 : vs.all (fun item => V.cmp (.arr A) item == .eq) = false := by
+      cases vs with
+      | nil => simp at hne
+      | cons v r => simp [cmp_arr_nonarr A v (hvs v (by simp))]
+    simp only [hne, Bool.not_false, Bool.true_and, h3, Bool.or_false]
+    congr 1
+    funext v
+    congr 1
+    funext el
+    exact cmp_eq_symm v el
+  rw [h1, h2]
+  -- ∃l ∀v  implies  ∀v ∃l
+  cases hX : A.any (fun l => vs.all (fun v => V.cmp l v == .eq)) with
+  | false => simp
+  | true =>
+    simp only [Bool.true_or]
+    symm
+    rw [List.all_eq_true]
+    intro v hv
+    obtain ⟨l, hl, hlv⟩ := List.any_eq_true.mp hX
+    exact List.any_eq_true.mpr ⟨l, hl, List.all_eq_true.mp hlv v hv⟩
+
+theorem allSpec_nil (ls : List V) : (!([] : List V).isEmpty && ([] : List V).all fun v => ls.any fun l => V.cmp l v == .eq) = false := rfl
+
+theorem matchAll_agrees {d : Doc} {path : String} (hd : PathDom d path) (vs : List V)
+    (hnf : fans (.doc d) (splitPath path) = false → vs.all (fun v => !v.isArr) = true)
+    (hfan : fans (.doc d) (splitPath path) = true →
+      vs.all scalarOperand = true ∧ (cand (.doc d) (splitPath path)).all (fun c => !c.1.isArr) = true) :
+    matchAll d path (.arr vs) =
+      toRes (!vs.isEmpty && vs.all fun v => (leafs d (splitPath path)).any fun l => V.cmp l v == .eq) := by
+  rw [matchAll_bool]
+  congr 1
+  by_cases hne : vs.isEmpty = true
+  · -- no members: never matches
+    have : allPred vs = fun _ => false := by funext l; simp [allPred, hne]
+    unfold unwindAny
+    rw [this]
+    simp only [hne, Bool.not_true, Bool.false_and]
+    generalize All d (splitPath path) true false = r
+    obtain ⟨value, multi⟩ := r
+    cases value <;> simp
+  · have hne' : vs.isEmpty = false := by simpa using hne
+    simp only [hne', Bool.not_false, Bool.true_and]
+    by_cases hf : fans (.doc d) (splitPath path) = true
+    · obtain ⟨hsc, hca⟩ := hfan hf
+      have hvs : ∀ v ∈ vs, v.isArr = false := by
+        intro v hv
+        have := List.all_eq_true.mp hsc v hv
+        cases v <;> simp_all [scalarOperand, V.isArr]
+      unfold unwindAny
+      rw [(All_fan d _ hd.nna hd.segs hf).1]
+      simp only [Bool.not_true, Bool.or_true, Bool.true_and]
+      have hA : ∀ el ∈ (cand (.doc d) (splitPath path)).map (·.1), el.isArr = false := by
+        intro el hel
+        obtain ⟨c, hc, rfl⟩ := List.mem_map.mp hel
+        simpa using List.all_eq_true.mp hca c hc
+      rw [all_core vs _ hne' hA hvs]
+      unfold leafs leafsAt
+      cases hcs : cand (.doc d) (splitPath path) with
+      | nil =>
+        -- nothing reached: lungo offers nothing, the reference offers `missing`; a non-null scalar
+        -- member equals neither
+        cases vs with
+        | nil => simp at hne'
+        | cons v r =>
+          have hv := scalar_cls (List.all_eq_true.mp hsc v (by simp))
+          have : (V.cmp .missing v == .eq) = false := by
+            cases h : V.cmp .missing v == .eq with
+            | false => rfl
+            | true =>
+              have := cmp_eq_cls' .missing v (by simpa using h)
+              simp only [V.cls, beq_iff_eq] at this
+              exact absurd this.symm hv.1
+          simp [this]
+      | cons c cs =>
+        simp only
+        congr 1
+        funext v
+        rw [← hcs, List.any_flatMap, List.any_map]
+        apply any_congr_mem
+        intro x hx
+        have hxa : x.1.isArr = false := by simpa using List.all_eq_true.mp hca x hx
+        cases hx1 : x.1 <;> simp_all [expand, V.isArr]
+    · have hf' : fans (.doc d) (splitPath path) = false := by simpa using hf
+      have hvs : ∀ v ∈ vs, v.isArr = false := by
+        intro v hv; simpa using List.all_eq_true.mp (hnf hf') v hv
+      obtain ⟨h1, h2⟩ := All_noFan d (splitPath path) true false hd.nna hd.segs hf'
+      unfold unwindAny leafs leafsAt
+      rw [h1]
+      simp only [Bool.not_false, Bool.true_or, Bool.true_and]
+      cases hcs : cand (.doc d) (splitPath path) with
+      | nil =>
+        simp only [single, List.any_cons, List.any_nil, Bool.or_false, Bool.false_or]
+        exact allPred_nonarr vs hne' .missing rfl
+      | cons c cs =>
+        have : cs = [] := by rw [hcs] at h2; simpa using h2
+        subst this
+        have hcn : noNestedArrays c.1 = true := cand_nna _ _ false hd.nna c (by rw [show candF (.doc d) (splitPath path) false = cand (.doc d) (splitPath path) from rfl, hcs]; simp)
+        cases hc1 : c.1 with
+        | arr a =>
+          simp only [single, hc1, List.flatMap_cons, List.flatMap_nil, List.append_nil, expand]
+          rw [hc1, noNestedArrays] at hcn
+          have hA : ∀ el ∈ a, el.isArr = false := fun el hel => (nna_elem hcn hel).1
+          rw [all_core vs a hne' hA hvs]
+          apply all_congr_mem
+          intro v hv
+          simp [cmp_arr_nonarr a v (hvs v hv)]
+        | _ =>
+          simp only [single, hc1, List.flatMap_cons, List.flatMap_nil, List.append_nil, expand,
+            List.any_cons, List.any_nil, Bool.or_false, Bool.false_or]
+          exact allPred_nonarr vs hne' _ rfl
 
 end Lungo
